@@ -2303,7 +2303,7 @@ void get_line_number_info (char **ret_file, int *ret_line) {
 }
 
 char* get_line_number (const char *p, const program_t * progp) {
-  static char buf[256];
+  static char buf[PATH_MAX + 32]; /* "/<file>:<line>": 256 bytes overflowed for a source file with a long path */
   int i;
   char *file = "???";
   int line = -1;
@@ -2330,7 +2330,7 @@ char* get_line_number (const char *p, const program_t * progp) {
     }
   if (!file)
     file = progp->name;
-  sprintf (buf, "/%s:%d", file, line);
+  snprintf (buf, sizeof buf, "/%s:%d", file, line);
   return buf;
 }
 
